@@ -278,7 +278,10 @@ def _replay_contract(p):
         st, sp = ChainState(pos=q.copy(), mom=mom.copy(), dir=1), ChainState(pos=q.copy(), mom=mom.copy(), dir=1)
         system = Sys()
         try:
-            out = fn_solver(st, sp, t, system, constraint_tol=1e-9, position_tol=1e-8, divergence_tol=1e10, max_iters=p.get("max_iters", 3), **kw)
+            # (tolerances are arguments of the solver: the symbolic run treats them as symbols, the replay draws them)
+            tol_c = float(rng.choice([1e-9, 1e-13, 1e-6, 0.5]))
+            tol_p = float(rng.choice([1e-8, 1e-3, 10.0]))
+            out = fn_solver(st, sp, t, system, constraint_tol=tol_c, position_tol=tol_p, divergence_tol=1e10, max_iters=p.get("max_iters", 3), **kw)
         except ConvergenceError:
             continue
         except Exception as e:  # noqa: BLE001
@@ -286,8 +289,8 @@ def _replay_contract(p):
             break
         res = abs(system.constr(out)[0])
         dq, dp = out.pos - q, out.mom - mom
-        if not res < 1e-9:
-            found = f"returned with |constraint residual| = {res:.3g} at the returned position (tolerance 1e-9)"
+        if not res < tol_c:
+            found = f"returned with |constraint residual| = {res:.3g} at the returned position (constraint_tol {tol_c:g}, position_tol {tol_p:g})"
             break
         if np.max(np.abs(dq - t * dp)) > 1e-9 * (1 + np.max(np.abs(dq))):
             found = f"position correction {dq} != t * momentum correction {t * dp} (trial {trial}): multiplier and position updates inconsistent"
